@@ -51,10 +51,13 @@ func c08Family(n int) []*GenomeSpec {
 	// one member that differs from member 0 only in mutation numbers (small distance)
 	f[5].Genes[0].Mut += 0.375
 	if n > len(f) {
-		// thorough: every subset of the three hidden nodes, each with two weight settings
+		// thorough: every subset of the three hidden nodes, half of them with a second weight setting
 		f = nil
 		for mask := uint(0); mask < 8; mask++ {
-			f = append(f, hbMask(len(f), mask, 0), hbMask(len(f)+1, mask, 3))
+			f = append(f, hbMask(len(f), mask, 0))
+			if mask%2 == 0 {
+				f = append(f, hbMask(len(f), mask, 3))
+			}
 		}
 		f[1].Genes[0].Mut += 0.375
 		return f
@@ -284,7 +287,7 @@ func c08Existing(fam, maxMembers int) (exs [][][]int) {
 func runC08(c *Ctx) {
 	fam, maxEx, maxBatch := 8, 2, 3
 	if !c.Quick() {
-		fam, maxEx, maxBatch = 16, 2, 3
+		fam, maxEx, maxBatch = 12, 2, 3
 	}
 	exs := c08Existing(fam, maxEx)
 	c.Extra["family_size"] = fam
